@@ -151,7 +151,6 @@ fn main() {
     let mut rep = Report::new("C10", &args);
     let thorough = args.tier == Tier::Thorough;
     // deviation budget: at most one spurious compare_exchange_weak failure per execution
-    SPURIOUS_BUDGET.store(if thorough { 1 } else { 0 }, std::sync::atomic::Ordering::Relaxed);
     if let Some(p) = &args.replay {
         let doc = read_replay(p);
         if doc["engine"] == "vsched" {
@@ -221,13 +220,19 @@ fn main() {
     let nd = drivers.len();
     rep.rule = format!("(E1) stateless exploration (vsched, Mode U with sleep sets, fallback preemption bound) of all interleavings at lock/atomic operations and call boundaries of: for 3 vector flavours (IntCounterVec list form, CounterVec map form, HistogramVec), all unordered pairs of programs of <=2 operations over {:?} (quick: pairs of total length <=3; reduced alphabet for the 2nd and 3rd flavour; 3-thread HistogramVec drivers preemption-bounded) all unordered triples of 1-operation programs over {{W(a),W(b),remove(a),remove(b),reset,collect}} (quick: IntCounterVec only) and five 3-thread drivers with 2-call programs (creator|creator|collector, creator|remover|collector, creator|reset|creator, creator|remover|creator, creator(a)|creator(b)|collector), from 3 start states (empty / holding key a with a kept handle / a created-and-removed with a kept handle); oracle: Wing-Gong linearizability against a map key->child where collected child values are decoded (distinct powers of two) and judged per child with interval semantics, so they show which child object every handle pointed to. (E2) all sequential histories up to depth {} over {{W(a),W(b),get(a),remove(a),remove(b),reset,update through the last handle, update through the kept handle}} for each flavour and start state, collect compared with the reference after every step. distinct = distinct (results, real-time relation) outcomes + unique sequential states", alpha, if thorough { 6 } else { 5 });
     rep.bounds = json!({"threads": "2-3", "ops_per_thread": 2, "keys": KEYS, "e1_drivers": nd, "seq_depth": if thorough {6} else {5}});
-    let cap = if thorough { 3_000_000 } else { 300_000 };
+    let cap = if thorough { 1_000_000 } else { 300_000 };
     // quick tier: the 3-thread HistogramVec drivers (a histogram collect is ~15 steps) and the 1-operation triples are
     // explored with a bound of 2 preemptions instead of unboundedly
-    let (heavy, light): (Vec<VecDriver>, Vec<VecDriver>) = drivers.into_iter().partition(|d| !thorough && d.programs.len() == 3 && (d.flavour == VFlavour::HistogramList || d.programs.iter().all(|p| p.len() == 1)));
+    // heavy = 3-thread drivers on HistogramVec and (quick only) the 1-call triples: preemption-bounded (quick 2, thorough 3)
+    let (heavy, light): (Vec<VecDriver>, Vec<VecDriver>) = drivers.into_iter().partition(|d| d.programs.len() == 3 && (d.flavour == VFlavour::HistogramList || (!thorough && d.programs.iter().all(|p| p.len() == 1))));
     let cl = |d: &VecDriver| VecDriver { flavour: d.flavour, start: d.start, programs: d.programs.clone() };
-    let mut results = explore_many(light, Mode::U, cap, 3, 16, cl);
-    results.extend(explore_many(heavy, Mode::B(2), cap, 2, 16, cl));
+    // deviation budget (one spurious weak-CAS failure): thorough tier, two-thread drivers with at most 3 calls
+    let (dev, nodev): (Vec<VecDriver>, Vec<VecDriver>) = light.into_iter().partition(|d| thorough && d.programs.len() == 2 && d.programs.iter().map(|p| expand(p).len()).sum::<usize>() <= 3);
+    SPURIOUS_BUDGET.store(1, std::sync::atomic::Ordering::Relaxed);
+    let mut results = explore_many(dev, Mode::U, cap, 3, 16, cl);
+    SPURIOUS_BUDGET.store(0, std::sync::atomic::Ordering::Relaxed);
+    results.extend(explore_many(nodev, Mode::U, cap, 3, 16, cl));
+    results.extend(explore_many(heavy, Mode::B(if thorough { 3 } else { 2 }), cap, 2, 16, cl));
     let summary = fold_results(&mut rep, results);
     rep.extra.insert("modes".into(), summary);
     let e1_execs = rep.evaluations;
